@@ -380,7 +380,8 @@ pub fn diagnose_hang(market: Option<usize>) -> (Option<String>, Value) {
         counts.push(EVENT_COUNT.load(Ordering::Relaxed));
         std::thread::sleep(Duration::from_secs(1));
     }
-    let stable = pictures.windows(2).all(|w| w[0] == w[1]);
+    // stable = the picture does not change AND the market emits no events at all
+    let stable = pictures.windows(2).all(|w| w[0] == w[1]) && counts.windows(2).all(|w| w[0] == w[1]);
     let evidence = json!({"snapshots": pictures, "last_events": market.map(|m| peek_events(m, 12))});
     if !stable {
         return (None, evidence);
@@ -795,6 +796,10 @@ pub fn broker_case(case: &mut Case) {
     let total_depth = case.rng.range(3, 7) as u32;
     let fanout = case.rng.range(1, 3) as u32;
     let block = case.rng.range(1, 6);
+    broker_case_with(case, threads, total_depth, fanout, block);
+}
+
+pub fn broker_case_with(case: &mut Case, threads: usize, total_depth: u32, fanout: u32, block: usize) {
     case.distinct(crate::ctx::hash_of(&(threads, total_depth, fanout, block)), true);
     case.sample(|| json!({"threads": threads, "depth": total_depth, "fanout": fanout, "block": block}));
     // job = (id, depth); processing a job of depth < total_depth creates `fanout` children
@@ -946,6 +951,13 @@ pub fn run(ctx: &mut Ctx) {
     install_sink();
     install_perturber();
     let ctx = &*ctx;
+    if std::env::var_os("SVMON_LANE").is_some() {
+        // reduced workload for the sanitizer lanes (runs 5-15x slower)
+        lane_workload(ctx);
+        verif::set_sink(None);
+        verif::set_perturber(None);
+        return;
+    }
     let reps = ctx.n(1, 12);
     for rep in 0..reps {
         for (pi, pname) in PROFILES.iter().enumerate() {
@@ -985,4 +997,184 @@ pub fn run(ctx: &mut Ctx) {
     ctx.info("perturbations_applied", json!(PERTURB_COUNT.load(Ordering::Relaxed)));
     verif::set_sink(None);
     verif::set_perturber(None);
+    if !ctx.quick() && !ctx.is_replay() {
+        sanitizer_lanes(ctx);
+    }
+}
+
+fn lane_workload(ctx: &Ctx) {
+    for (pi, pname) in [(0usize, "none"), (1, "yield"), (3, "sleep")] {
+        set_profile(pi, mix(&[ctx.seed, pi as u64]));
+        for bs in [0usize, 2] {
+            verif::set_block_size(bs);
+            ctx.cases(&format!("lane/exhaustive/{}/block{}", pname, bs), 16, 4, |case| exhaustive_case(case, false, &[2, 3, 4, 8]));
+            ctx.cases(&format!("lane/broker/{}/round{}", pname, bs), 24, 4, broker_case);
+            ctx.cases(&format!("lane/model_panic/{}/block{}", pname, bs), 8, 3, panic_case);
+        }
+        verif::set_block_size(0);
+        ctx.cases(&format!("lane/early_stop/{}", pname), 2, 1, early_stop_case);
+        ctx.cases(&format!("lane/exhaustive_large/{}", pname), 1, 1, |case| exhaustive_case(case, true, &[4, 8]));
+    }
+    set_profile(0, 0);
+}
+
+/// Runs the TSan and Miri lane scripts and turns their one-line JSON summaries into verdicts.
+fn sanitizer_lanes(ctx: &Ctx) {
+    let tools = ctx.verif_dir.join("tools");
+    let run_script = |script: &str, args: &[&str], limit_s: u64| -> Option<Value> {
+        let mut cmd = std::process::Command::new(tools.join(script));
+        cmd.args(args).stdin(std::process::Stdio::null()).stderr(std::process::Stdio::null());
+        let start = Instant::now();
+        let mut child = cmd.stdout(std::process::Stdio::piped()).spawn().ok()?;
+        loop {
+            match child.try_wait() {
+                Ok(Some(_)) => break,
+                Ok(None) => {}
+                Err(_) => return None,
+            }
+            if start.elapsed() > Duration::from_secs(limit_s) {
+                let _ = child.kill();
+                let _ = child.wait();
+                return None;
+            }
+            std::thread::sleep(Duration::from_millis(200));
+        }
+        let out = child.wait_with_output().ok()?;
+        String::from_utf8_lossy(&out.stdout).lines().rev().find_map(|l| serde_json::from_str::<Value>(l.trim()).ok())
+    };
+    ctx.cases("sanitizer/tsan", 1, 1, |case| {
+        let seed = case.ctx.seed.to_string();
+        case.distinct(1, true);
+        match run_script("tsan_c05.sh", &[&seed], 1500) {
+            None => case.inconclusive("TSan lane did not produce a summary"),
+            Some(v) => {
+                case.ctx.info("tsan_lane", v.clone());
+                if v["built"].as_bool() != Some(true) {
+                    case.inconclusive("TSan build failed (see harness/target-tsan/lane-out/build.log)");
+                    return;
+                }
+                case.add("tsan_reports_total", v["reports"].as_u64().unwrap_or(0));
+                if let Some(r) = v["stateright_reports"].as_array().and_then(|a| a.first()) {
+                    let frames = r["frames"].as_array().map(|f| f.iter().filter_map(|x| x.as_str()).collect::<Vec<_>>().join("|")).unwrap_or_default();
+                    case.violation(&format!("C05/tsan/{}", frames), v.clone());
+                    return;
+                }
+                if v["exit"].as_i64() == Some(1) {
+                    case.violation("C05/tsan-lane/monitor-violation-under-tsan", v.clone());
+                } else if v["exit"].as_i64() != Some(0) && v["reports"].as_u64().unwrap_or(0) == 0 {
+                    case.inconclusive(&format!("TSan run ended with exit code {}", v["exit"]));
+                }
+                case.sample(|| v.clone());
+            }
+        }
+    });
+    ctx.cases("sanitizer/miri", 1, 1, |case| {
+        case.distinct(2, true);
+        match run_script("miri_lane.sh", &["c05", "0..16"], 1800) {
+            None => case.inconclusive("Miri lane did not produce a summary"),
+            Some(v) => {
+                case.ctx.info("miri_lane", v.clone());
+                case.add("miri_seeds_ok", v["seeds_ok"].as_u64().unwrap_or(0));
+                if v["built"].as_bool() != Some(true) {
+                    case.inconclusive("Miri build failed");
+                    return;
+                }
+                if let Some(u) = v["ub"].as_array().and_then(|a| a.first()) {
+                    case.violation(&format!("C05/miri/{}", u.as_str().unwrap_or("report").chars().take(80).collect::<String>()), v.clone());
+                    return;
+                }
+                if let Some(u) = v["violations"].as_array().and_then(|a| a.first()) {
+                    case.violation(&format!("C05/miri-lane/{}", u.as_str().unwrap_or("violation")), v.clone());
+                    return;
+                }
+                if v["seeds_ok"].as_u64().unwrap_or(0) == 0 {
+                    case.inconclusive("no Miri seed completed");
+                }
+                case.sample(|| v.clone());
+            }
+        }
+    });
+}
+
+/// Runs `tools/miri_lane.sh <what>` (UB smoke test of pure data-structure code) and records the
+/// outcome under sub-check `sanitizer/miri-smoke`.
+pub fn miri_smoke_lane(ctx: &Ctx, what: &str, pid: &str) {
+    let script = ctx.verif_dir.join("tools").join("miri_lane.sh");
+    ctx.cases("sanitizer/miri-smoke", 1, 1, |case| {
+        case.distinct(3, true);
+        let out = std::process::Command::new(&script).args([what, "0..2"]).stdin(std::process::Stdio::null()).stderr(std::process::Stdio::null()).output();
+        let v = out.ok().and_then(|o| String::from_utf8_lossy(&o.stdout).lines().rev().find_map(|l| serde_json::from_str::<Value>(l.trim()).ok()));
+        match v {
+            None => case.inconclusive("Miri smoke lane did not produce a summary"),
+            Some(v) => {
+                case.ctx.info("miri_smoke_lane", v.clone());
+                if v["built"].as_bool() != Some(true) {
+                    case.inconclusive("Miri build failed");
+                } else if let Some(u) = v["ub"].as_array().and_then(|a| a.first()) {
+                    case.violation(&format!("{}/miri/{}", pid, u.as_str().unwrap_or("report").chars().take(80).collect::<String>()), v.clone());
+                } else if let Some(u) = v["violations"].as_array().and_then(|a| a.first()) {
+                    case.violation(&format!("{}/miri-lane/{}", pid, u.as_str().unwrap_or("violation")), v.clone());
+                } else if v["seeds_ok"].as_u64().unwrap_or(0) == 0 {
+                    case.inconclusive("no Miri seed completed");
+                }
+                case.sample(|| v.clone());
+            }
+        }
+    });
+}
+
+/// `svmon --miri-lane c05`: a tiny workload with the same monitors, sized for the interpreter.
+pub fn miri_lane() -> i32 {
+    let mut ctx = Ctx::new("C05", crate::ctx::Tier::Quick, 7, None);
+    ctx.verif_dir = std::env::temp_dir().join("svmon-miri-lane");
+    install_sink();
+    {
+        let ctx = &ctx;
+        verif::set_block_size(2);
+        ctx.cases("miri/broker", 2, 1, |case| {
+            let (depth, fanout) = if case.k == 0 { (3, 2) } else { (5, 1) };
+            broker_case_with(case, 3, depth, fanout, 2);
+        });
+        ctx.cases("miri/exhaustive", 1, 1, |case| {
+            let mut g = gen_graph(&mut case.rng, &Knobs { max_n: 10, allow_outside_inits: false, ..Knobs::default() });
+            let reach = g.reach();
+            add_props_with_keepalive(&mut case.rng, &mut g, &reach, 1);
+            case.distinct(g.structural_hash(), true);
+            let model = GraphModel(Arc::new(g));
+            for strat in [Strat::Bfs, Strat::Dfs] {
+                match spawn_and_join(&model, strat, &Scenario { threads: 3, finish_when: None, target: None }, Duration::from_secs(600), None) {
+                    Outcome::Done(o) => {
+                        let mut seen = vec![0u32; model.n];
+                        for s in &o.visited {
+                            seen[*s as usize] += 1;
+                        }
+                        if (0..model.n).any(|s| seen[s] != u32::from(reach.reachable[s])) {
+                            case.violation(&format!("C05/exhaustive/{}/visited-multiset-wrong-under-miri", strat.name()), json!({}));
+                            return;
+                        }
+                        if !account_market(case, o.market, strat, &model, 3) {
+                            return;
+                        }
+                    }
+                    Outcome::Panicked(msg, _) => {
+                        case.violation("C05/exhaustive/join-panicked-under-miri", json!({ "panic": msg }));
+                        return;
+                    }
+                    Outcome::Hung(_) => {
+                        case.violation("C05/exhaustive/join-hangs-under-miri", json!({}));
+                        return;
+                    }
+                }
+            }
+        });
+        verif::set_block_size(0);
+    }
+    verif::set_sink(None);
+    let code = ctx.finish();
+    if code == 0 {
+        println!("{}", json!({"miri_lane_ok": true}));
+    } else {
+        println!("{}", json!({"violation": "see VIOLATION lines above"}));
+    }
+    code
 }
